@@ -153,13 +153,18 @@ struct TestSpec {
 enum { F_NONE, F_CONTAINS, F_STRICT, F_XCONTAINS, F_XSTRICT };
 static const char* FNAME[] = { "none", "contains", "strict", "exclude-contains", "exclude-strict" };
 
+static const int MAX_OUTER = 4;     // the jump-buffer stack has 10 entries, two per nesting level: at most 4 outer tests around the program's tests (never more: undefined)
 struct Program {
     int mode = 0;                   // 0 registry, 1 runner, 2 process
     std::vector<TestSpec> tests;
     int reps = 1;
     int gf = F_NONE, nf = F_NONE; std::string gfs, nfs;
-    int verbose = 0; bool color = false, reverse = false, run_ignored = false, vsformat = false, nested = false;
+    int verbose = 0; bool color = false, reverse = false, run_ignored = false, vsformat = false;
+    int nested = 0;                 // number of enclosing outer tests (0..capacity/2-1): the tests of the program run at nesting level nested+1
+    int outer_fail[MAX_OUTER] = { 0, 0, 0, 0 };   // per outer test (0 = outermost): after the nested run its body 0 completes, 1 fails a C++-style check, 2 fails a C-style check
     bool flag_e = false; bool string_buffer_output = false;
+    // position in a history of runner invocations in one process (static configuration is left as the earlier invocations left it)
+    int hist_pos = 0, hist_len = 0; bool hist_prev_without_e = false, hist_prev_with_e = false, hist_prev_with_f = false;
     std::vector<std::string> argv;  // modes 1,2
     int bystander = 0;              // extra no-op plugin: see run_inner
     int crash = 0;                  // crash-on-fail with a crash method that returns: 0 off, 1 UtestShell::setCrashOnFail() before the run, 2 "-f" (modes 1,2)
@@ -291,7 +296,11 @@ struct Obs {
     int8_t hasfailed[MAXT][MAXREP];
     RepCounters rc_[MAXREP];
     int rc; int have_rc; int finished;
-    int outer_failures, outer_runs, outer_after, outer_used;
+    int outer_used;              // number of outer levels (0: not nested)
+    int outer_setup[4], outer_body[4], outer_teardown[4], outer_after_run[4], outer_after_fail[4];
+    int outer_failures[4], outer_runs[4], outer_checks[4], outer_printed[4], outer_hasfailed[4], outer_pre[4], outer_post[4];
+    int outer_depth_pre[4], outer_depth_post[4], outer_depth_body[4], outer_cur_bad[4];
+    int escaped;                 // an exception left CommandLineTestRunner::runAllTestsMain (1 std::exception, 2 other)
     uint32_t crash_calls, crash_calls_outside_phase, crash_calls_in_phase[3];
     uint32_t outlen; int out_overflow;
     Ev ev[MAXEV];
@@ -659,7 +668,7 @@ static void run_inner() {
     if (p.bystander == 1) { reg.installPlugin(&bystander); bystander.disable(); }
     if (p.bystander == 2) reg.installPlugin(&bystander);
     for (size_t i = p.tests.size(); i-- > 0;) reg.addTest(G.shells[i]);     // addTest prepends
-    if (p.crash) UtestShell::setCrashMethod(crash_hook_that_returns);        // never the default (abort) while a crashing terminator may be installed
+    if (p.crash || p.hist_len) UtestShell::setCrashMethod(crash_hook_that_returns);   // never the default (abort) while a crashing terminator may be installed (in a history an earlier invocation may have installed it)
     if (p.crash == 1) UtestShell::setCrashOnFail();                          // (2: the runner does it when it sees -f)
     if (p.mode == 0) {
         TestFilter gfilt(p.gfs.c_str()), nfilt(p.nfs.c_str());
@@ -689,31 +698,101 @@ static void run_inner() {
         void (*old_flush)() = PlatformSpecificFlush;
         PlatformSpecificFPuts = seam_fputs; PlatformSpecificFlush = seam_flush;
         if (p.mode == 1) {
-            CommandLineTestRunner runner((int) av.size(), av.data(), &reg);
-            o->rc = runner.runAllTestsMain();
+#ifndef VF_NOEXC
+            // no generated program lets an exception out of the runner (every program that throws passes -e / -ci); if one comes out anyway
+            // it is recorded and the case is judged on what was observed up to then (trace, output, no return value)
+            try {
+#endif
+                CommandLineTestRunner runner((int) av.size(), av.data(), &reg);
+                o->rc = runner.runAllTestsMain();
+                o->have_rc = 1;
+#ifndef VF_NOEXC
+            }
+            catch (const std::exception&) { o->escaped = 1; }
+            catch (...) { o->escaped = 2; }
+#endif
         } else {
             reg.setCurrentRegistry(&reg);
             o->rc = RUN_ALL_TESTS((int) av.size(), av.data());
+            o->have_rc = 1;
         }
-        o->have_rc = 1;
         PlatformSpecificFPuts = old_fputs; PlatformSpecificFlush = old_flush;
     }
-    if (p.crash) { UtestShell::restoreDefaultTestTerminator(); UtestShell::resetCrashMethod(); }   // the outer test (nested runs) continues in the default configuration
+    // the outer test (nested runs) continues in the default configuration; inside a history of invocations the static configuration
+    // stays as the runner left it (it is restored after the last invocation, see run_program_here)
+    if (p.crash && !p.hist_len) { UtestShell::restoreDefaultTestTerminator(); UtestShell::resetCrashMethod(); }
     o->depth_after_run = CppUTestVerif_JumpBufferDepth();
     o->cur_after_ok = UtestShell::getCurrent() == G.base_cur;
     o->res_after_ok = g_peek->peekResult() == G.base_res;
 }
 
+// Nested runs: a test may itself run tests (the documented way to test test code). `nested` outer tests are stacked around the program,
+// each one a complete test (setup, body, teardown, own registry / result / output / plugin) whose body runs the next level and then
+// completes or fails a check of its own. Every level is judged: lifecycle, failure recorded and printed once, jump-buffer depth restored.
+static const char* const OUTER_FILE = "outer_file.cpp";
+static int outer_check_line(int level) { return 100 + level; }
+static void run_level(int level);
 class OuterTest : public Utest {
 public:
-    void testBody() CPPUTEST_OVERRIDE { run_inner(); g_obs->outer_after = 1; }
+    int level;
+    explicit OuterTest(int l) : level(l) {}
+    void setup() CPPUTEST_OVERRIDE { g_obs->outer_setup[level]++; }
+    void testBody() CPPUTEST_OVERRIDE {
+        Obs* o = g_obs;
+        o->outer_body[level]++;
+        o->outer_depth_body[level] = CppUTestVerif_JumpBufferDepth();
+        run_level(level + 1);
+        o->outer_after_run[level]++;
+        if (CppUTestVerif_JumpBufferDepth() != o->outer_depth_body[level]) o->outer_depth_body[level] = -1000;    // judged: the nested run left the depth changed
+        int fk = G.p->outer_fail[level];
+        if (fk == 1) CHECK_TRUE_LOCATION(false, "CHECK", "cond", "outer check", OUTER_FILE, (size_t) outer_check_line(level));
+        if (fk == 2) CHECK_C_LOCATION(0, "cond", "outer check", OUTER_FILE, (size_t) outer_check_line(level));
+        o->outer_after_fail[level]++;
+    }
+    void teardown() CPPUTEST_OVERRIDE { g_obs->outer_teardown[level]++; }
 };
 class OuterShell : public UtestShell {
 public:
-    OuterShell() : UtestShell("OuterGroup", "outer", "outer_file.cpp", 7) {}
-    Utest* createTest() CPPUTEST_OVERRIDE { return new OuterTest; }
+    int level;
+    explicit OuterShell(int l) : UtestShell("OuterGroup", "outer", OUTER_FILE, (size_t) (7 + l)), level(l) {}
+    Utest* createTest() CPPUTEST_OVERRIDE { return new OuterTest(level); }
 };
+class OuterPlugin : public TestPlugin {
+public:
+    int level; UtestShell* cur_at_pre;
+    explicit OuterPlugin(int l) : TestPlugin("OuterPlugin"), level(l), cur_at_pre(NULLPTR) {}
+    void preTestAction(UtestShell&, TestResult&) CPPUTEST_OVERRIDE { g_obs->outer_pre[level]++; g_obs->outer_depth_pre[level] = CppUTestVerif_JumpBufferDepth(); cur_at_pre = UtestShell::getCurrent(); }
+    void postTestAction(UtestShell& t, TestResult&) CPPUTEST_OVERRIDE {
+        Obs* o = g_obs;
+        o->outer_post[level]++; o->outer_depth_post[level] = CppUTestVerif_JumpBufferDepth();
+        o->outer_hasfailed[level] = t.hasFailed() ? 1 : 0;
+        if (UtestShell::getCurrent() != cur_at_pre) o->outer_cur_bad[level]++;
+    }
+};
+static int count_occurrences(const char* hay, const std::string& needle) {
+    int n = 0;
+    for (const char* q = strstr(hay, needle.c_str()); q; q = strstr(q + 1, needle.c_str())) n++;
+    return n;
+}
+static void run_level(int level) {
+    if (level >= G.p->nested || level >= MAX_OUTER) { run_inner(); return; }
+    Obs* o = g_obs;
+    TestRegistry oreg;
+    StringBufferTestOutput oout; TestResult ores(oout); OuterShell osh(level); OuterPlugin oplug(level);
+    oreg.installPlugin(&oplug);
+    oreg.addTest(&osh);
+    oreg.runAllTests(ores);
+    o->outer_failures[level] = (int) ores.getFailureCount(); o->outer_runs[level] = (int) ores.getRunCount(); o->outer_checks[level] = (int) ores.getCheckCount();
+    const char* text = oout.getOutput().asCharString();
+    o->outer_printed[level] = count_occurrences(text, std::string(OUTER_FILE) + ":" + std::to_string(outer_check_line(level)) + ": error:")
+                            + count_occurrences(text, std::string(OUTER_FILE) + "(" + std::to_string(outer_check_line(level)) + "): error:");
+}
 
+static void reset_static_configuration() {
+    UtestShell::setRethrowExceptions(false);
+    UtestShell::restoreDefaultTestTerminator();
+    UtestShell::resetCrashMethod();
+}
 static void run_program_here(const Program& p) {   // fills g_obs
     G = RunCtx();
     G.p = &p; G.ntests = p.tests.size();
@@ -723,18 +802,14 @@ static void run_program_here(const Program& p) {   // fills g_obs
         own.emplace_back(s); G.shells[i] = s;
     }
     if (p.vsformat) TestOutput::setWorkingEnvironment(TestOutput::visualStudio);
-    if (p.nested) {
-        Obs* o = g_obs;
-        TestRegistry oreg;
-        StringBufferTestOutput oout; TestResult ores(oout); OuterShell osh;
-        oreg.addTest(&osh);
-        oreg.runAllTests(ores);
-        o->outer_used = 1; o->outer_failures = (int) ores.getFailureCount(); o->outer_runs = (int) ores.getRunCount();
-    } else run_inner();
+    g_obs->outer_used = std::min(p.nested, MAX_OUTER);
+#ifndef VF_NOEXC
+    try { run_level(0); } catch (...) { if (!g_obs->escaped) g_obs->escaped = 3; }
+#else
+    run_level(0);
+#endif
     TestOutput::setWorkingEnvironment(TestOutput::detectEnvironment);
-    UtestShell::setRethrowExceptions(false);
-    UtestShell::restoreDefaultTestTerminator();
-    UtestShell::resetCrashMethod();
+    if (!p.hist_len || p.hist_pos + 1 >= p.hist_len) reset_static_configuration();
     g_obs->finished = 1;
 }
 
@@ -832,6 +907,17 @@ static void judge(vf::Ctx& c, const Program& p, const Model& m, const Obs& o) {
         for (int ph = 0; ph < 3; ph++)
             for (size_t k = 0; k < p.tests[ti].ph[ph].size(); k++) { const Stmt& s = p.tests[ti].ph[ph][k]; by_id[(size_t) s.id] = StmtRef{ (int) ti, ph, (int) k, &s }; }
 
+    // the configuration / history shape is part of the failing class: tests at the deepest legal nesting level, an invocation of the runner
+    // that is not the first one in its process
+    const int cap = CppUTestVerif_JumpBufferCapacity();
+    const bool deepest = p.nested > 0 && 2 * (p.nested + 1) >= cap;
+    std::string shape_suffix;
+    if (deepest) shape_suffix += ":at-deepest-nesting-level";
+    if (p.hist_pos > 0) shape_suffix += p.flag_e && p.hist_prev_without_e ? ":invocation-with-e-after-invocation-without-e" : ":later-invocation-in-process";
+    std::string shape_note;
+    if (p.nested) shape_note += "[tests run at nesting level " + std::to_string(p.nested + 1) + " of " + std::to_string(cap / 2) + " that the jump-buffer stack allows] ";
+    if (p.hist_len) shape_note += "[invocation " + std::to_string(p.hist_pos + 1) + " of " + std::to_string(p.hist_len) + " in this process] ";
+
     if (o.ev_overflow || o.out_overflow) { c.violation("harness:capture-overflow", "trace or output capture buffer too small (harness limit, not a property violation)"); return; }
     if (o.unknown_shell) c.violation("plugin:action-for-unknown-test", "plugin action called with a shell that is not part of the program: " + std::to_string(o.unknown_shell));
 
@@ -857,7 +943,8 @@ static void judge(vf::Ctx& c, const Program& p, const Model& m, const Obs& o) {
                 key = std::string("trace:teardown-skipped:after-") + (pr && pr->s->terminating_kind() ? std::string(KNAME[pr->s->kind]) + "-in-" + PHNAME[pr->ph] : std::string("normal-phase-end"));
             else key = "trace:mismatch:expected=" + ev_kind(exp) + ":observed=" + ev_kind(got);
             if (p.crash) key += ":crash-on-fail";     // the configuration is part of the failing class (terminator in use: the crashing one, crash method returns)
-            c.violation(key, std::string(p.crash ? (p.crash == 1 ? "[crash-on-fail set with setCrashOnFail(), crash method returns] " : "[crash-on-fail set with -f, crash method returns] ") : "") + "event " + std::to_string(i) + ": expected " + ev_str(p, by_id, exp) + ", observed " + ev_str(p, by_id, got) + (prev ? "; previous event " + ev_str(p, by_id, *prev) : ""));
+            key += shape_suffix;
+            c.violation(key, shape_note + std::string(p.crash ? (p.crash == 1 ? "[crash-on-fail set with setCrashOnFail(), crash method returns] " : "[crash-on-fail set with -f, crash method returns] ") : "") + "event " + std::to_string(i) + ": expected " + ev_str(p, by_id, exp) + ", observed " + ev_str(p, by_id, got) + (prev ? "; previous event " + ev_str(p, by_id, *prev) : ""));
         }
         c.count("trace_events_compared", i);
     }
@@ -906,7 +993,14 @@ static void judge(vf::Ctx& c, const Program& p, const Model& m, const Obs& o) {
     // ---- 2. printed output: failures and summary, per repetition
     std::vector<RepOut> ro = parse_output(std::string(o.out, o.outlen));
     size_t nsum = 0; for (const RepOut& r : ro) if (r.summary) nsum++;
-    if (nsum != (size_t) p.reps) c.violation("summary:count", "expected " + std::to_string(p.reps) + " summary lines, found " + std::to_string(nsum));
+    if (o.escaped) {
+        // an exception came out of runAllTestsMain. With -e / -ci ("do not rethrow unexpected exceptions") that is never the documented
+        // behaviour; it is reported under its own key only together with what the property states (trace / summaries / return value)
+        if (p.flag_e && (!trace_ok || nsum != (size_t) p.reps))
+            c.violation("runner:exception-escaped-although-told-not-to-rethrow" + shape_suffix, shape_note + "an exception (" + (o.escaped == 1 ? "std::exception" : "foreign") + ") left CommandLineTestRunner::runAllTestsMain although " + (p.hist_prev_without_e ? "this invocation was given -e/-ci (an earlier invocation in the same process was not)" : "the invocation was given -e/-ci") + "; no value was returned");
+        c.count("runner_invocations_left_by_an_exception");
+    }
+    if (nsum != (size_t) p.reps) c.violation("summary:count", shape_note + "expected " + std::to_string(p.reps) + " summary lines, found " + std::to_string(nsum));
     for (size_t rep = 0; rep < ro.size(); rep++) {
         const RepOut& r = ro[rep];
         if (r.stray) c.violation("output:stray-error-line", std::to_string(r.stray) + " line(s) with ': error:' or a summary word that do not parse, repetition " + std::to_string(rep));
@@ -983,6 +1077,7 @@ static void judge(vf::Ctx& c, const Program& p, const Model& m, const Obs& o) {
     }
 
     // ---- 4. value returned by the command line runner
+    if (p.mode == 1 && !o.have_rc && !o.escaped) c.violation("harness:runner-did-not-return", "no return value and no escaped exception recorded");
     if (o.have_rc) {
         bool all_ok = true, last_ok = m.reps.back().ok, only_ran_nothing = true;
         for (const MRep& R : m.reps) if (!R.ok) { all_ok = false; if (R.failures) only_ran_nothing = false; }
@@ -1012,8 +1107,8 @@ static void judge(vf::Ctx& c, const Program& p, const Model& m, const Obs& o) {
             }
         }
         std::string shape = o.drift_rep >= 0 && o.drift_rep < (int) m.reps.size() && o.drift_test >= 0 && o.drift_test < (int) p.tests.size() ? triple_name(m.reps[(size_t) o.drift_rep], o.drift_test) : "?";
-        c.violation("jump-buffer-depth-not-restored-after-test:" + culprit + ":drift=" + (delta > 0 ? "+" : "") + std::to_string(delta),
-                    "depth " + std::to_string(o.drift_pre) + " at the pre action, " + std::to_string(o.drift_post) + " at the post action of test " + std::to_string(o.drift_test) + " (repetition " + std::to_string(o.drift_rep) + ", " + shape + "; depth at phase entries " + std::to_string(o.drift_entry[0]) + "/" + std::to_string(o.drift_entry[1]) + "/" + std::to_string(o.drift_entry[2]) + "); " + std::to_string(o.depth_drifts) + " tests drifted; capacity " + std::to_string(o.depth_capacity));
+        c.violation("jump-buffer-depth-not-restored-after-test:" + culprit + ":drift=" + (delta > 0 ? "+" : "") + std::to_string(delta) + (deepest ? ":at-deepest-nesting-level" : ""),
+                    shape_note + "depth " + std::to_string(o.drift_pre) + " at the pre action, " + std::to_string(o.drift_post) + " at the post action of test " + std::to_string(o.drift_test) + " (repetition " + std::to_string(o.drift_rep) + ", " + shape + "; depth at phase entries " + std::to_string(o.drift_entry[0]) + "/" + std::to_string(o.drift_entry[1]) + "/" + std::to_string(o.drift_entry[2]) + "); " + std::to_string(o.depth_drifts) + " tests drifted; capacity " + std::to_string(o.depth_capacity));
     }
     if (o.depth_after_run != o.depth_before_run) c.violation("jump-buffer-depth-not-restored-after-run", "depth " + std::to_string(o.depth_before_run) + " before, " + std::to_string(o.depth_after_run) + " after the run");
     if (o.cur_bad_pre || o.cur_bad_post) c.violation(std::string("current-test-not-restored:seen-at-") + (o.cur_bad_post ? "post" : "pre") + "-action", std::to_string(o.cur_bad_pre) + " pre / " + std::to_string(o.cur_bad_post) + " post actions saw UtestShell::getCurrent() different from its value before the run");
@@ -1030,8 +1125,51 @@ static void judge(vf::Ctx& c, const Program& p, const Model& m, const Obs& o) {
         if (got != want) c.violation(got ? "failed-flag:set-on-test-without-failure" : "failed-flag:clear-on-failed-test", "hasFailed()=" + std::to_string(got) + " at the post action of test " + std::to_string(ti) + " in repetition " + std::to_string(rep) + ", outcome " + triple_name(m.reps[(size_t) rep], (int) ti));
     }
     if (o.outer_used) {
-        if (o.outer_failures != 0 || o.outer_runs != 1 || !o.outer_after) c.violation("nested:outer-test-disturbed", "outer test: " + std::to_string(o.outer_failures) + " failures, " + std::to_string(o.outer_runs) + " runs, statement after the inner run executed: " + std::to_string(o.outer_after));
+        // every enclosing test is a test like any other: lifecycle, its failure recorded and printed once, depth restored, flag
+        static const char* const OFK[] = { "no-failing-check", "failcpp", "failc" };
+        for (int lv = 0; lv < o.outer_used && lv < MAX_OUTER; lv++) {
+            int fk = p.outer_fail[lv]; long wantf = fk ? 1 : 0;
+            std::string lvl = "outer test " + std::to_string(lv + 1) + " of " + std::to_string(o.outer_used) + " (counted from the outside; body " + (fk ? std::string("fails a ") + (fk == 1 ? "C++-style" : "C-style") + " check after the nested run" : std::string("completes")) + "): ";
+            std::string tail = std::string(lv + 1 == o.outer_used ? ":innermost-outer-test" : ":enclosing-outer-test") + (deepest ? ":at-deepest-nesting-level" : "");
+            if (o.outer_runs[lv] != 1 || o.outer_setup[lv] != 1 || o.outer_body[lv] != 1 || o.outer_after_run[lv] != 1 || o.outer_pre[lv] != 1 || o.outer_post[lv] != 1)
+                c.violation("nested:outer-test-disturbed" + tail, lvl + std::to_string(o.outer_runs[lv]) + " runs, setup x" + std::to_string(o.outer_setup[lv]) + ", body x" + std::to_string(o.outer_body[lv]) + ", statement after the nested run x" + std::to_string(o.outer_after_run[lv]) + ", pre action x" + std::to_string(o.outer_pre[lv]) + ", post action x" + std::to_string(o.outer_post[lv]));
+            if (o.outer_setup[lv] > 0 && o.outer_teardown[lv] != o.outer_setup[lv])
+                c.violation(std::string("nested:outer-test-teardown-skipped:after-") + OFK[fk] + "-in-body" + tail, lvl + "setup entered " + std::to_string(o.outer_setup[lv]) + " time(s), teardown ran " + std::to_string(o.outer_teardown[lv]) + " time(s)");
+            if (fk && o.outer_after_fail[lv] != 0) c.violation(std::string("nested:outer-test-statement-executed-after:") + OFK[fk] + tail, lvl + "the statement after its failing check was executed");
+            if (!fk && o.outer_after_fail[lv] != o.outer_after_run[lv]) c.violation("nested:outer-test-disturbed" + tail, lvl + "body did not run to its end");
+            if (o.outer_failures[lv] != wantf) c.violation(std::string("nested:outer-test-failure-count:") + OFK[fk] + tail, lvl + "its run recorded " + std::to_string(o.outer_failures[lv]) + " failure(s), expected " + std::to_string(wantf) + " (failures of the nested run belong to the nested run's own result)");
+            if (o.outer_printed[lv] != wantf) c.violation(std::string("nested:outer-test-failure-printed-times:") + OFK[fk] + tail, lvl + "its failing check was printed " + std::to_string(o.outer_printed[lv]) + " time(s), expected " + std::to_string(wantf));
+            if (o.outer_post[lv] == 1 && o.outer_hasfailed[lv] != (int) wantf) c.violation(std::string(o.outer_hasfailed[lv] ? "nested:outer-test-failed-flag:set-on-test-without-failure" : "nested:outer-test-failed-flag:clear-on-failed-test") + tail, lvl + "hasFailed()=" + std::to_string(o.outer_hasfailed[lv]) + " at its post action");
+            if (o.outer_pre[lv] == 1 && o.outer_post[lv] == 1 && o.outer_depth_pre[lv] != o.outer_depth_post[lv])
+                c.violation("nested:jump-buffer-depth-not-restored-after-outer-test" + tail, lvl + "depth " + std::to_string(o.outer_depth_pre[lv]) + " at its pre action, " + std::to_string(o.outer_depth_post[lv]) + " at its post action");
+            if (o.outer_depth_body[lv] == -1000) c.violation("nested:jump-buffer-depth-changed-by-nested-run" + tail, lvl + "the depth seen in its body differs before and after the nested run");
+            if (o.outer_cur_bad[lv]) c.violation("nested:current-test-not-restored-after-outer-test" + tail, lvl + "UtestShell::getCurrent() at its post action differs from its pre action");
+            c.count("outer_tests_judged");
+            if (fk) c.count(std::string("outer_tests_failing_a_") + (fk == 1 ? "cpp" : "c") + "_style_check_after_the_nested_run");
+        }
         c.count("nested_programs");
+        c.count("programs_with_tests_at_nesting_level_" + std::to_string(o.outer_used + 1));
+        if (deepest) {
+            c.count("programs_at_deepest_nesting_level");
+            c.count("test_executions_at_deepest_nesting_level", (uint64_t) m.test_exec);
+            if (m.phase_outcomes[O_C]) c.count("programs_at_deepest_nesting_level_with_a_failing_c_style_check");
+            if (m.phase_outcomes[O_CPP]) c.count("programs_at_deepest_nesting_level_with_a_failing_cpp_style_check");
+            if (m.phase_outcomes[O_STD] || m.phase_outcomes[O_INT]) c.count("programs_at_deepest_nesting_level_with_an_escaping_exception");
+            if (p.outer_fail[o.outer_used - 1]) c.count("programs_at_deepest_nesting_level_whose_enclosing_test_fails_afterwards");
+        }
+    }
+    if (p.hist_len) {
+        c.count("history_invocations");
+        c.count("history_invocations_at_position_" + std::to_string(p.hist_pos + 1));
+        bool throws = m.phase_outcomes[O_STD] || m.phase_outcomes[O_INT];
+        if (p.hist_pos > 0) {
+            if (p.flag_e && p.hist_prev_without_e) c.count("history_invocations_with_e_after_an_invocation_without_e");
+            if (p.flag_e && p.hist_prev_without_e && throws) c.count("history_invocations_with_e_and_an_escaping_exception_after_an_invocation_without_e");
+            if (!p.flag_e && p.hist_prev_with_e) c.count("history_invocations_without_e_after_an_invocation_with_e");
+            if (p.crash != 2 && p.hist_prev_with_f) c.count("history_invocations_without_f_after_an_invocation_with_f");
+            if (p.crash == 2 && !p.hist_prev_with_f) c.count("history_invocations_with_f_after_invocations_without_f");
+            if (m.any_failing_phase) c.count("history_later_invocations_with_a_failing_phase");
+        }
     }
 
     // ---- crash-on-fail configuration: what the returning crash hook saw (evidence; the property does not state when the hook is called)
@@ -1090,7 +1228,19 @@ static const char* TFILES[] = { "tests_a.cpp", "tests_b.cpp", "suite/deep_c.cpp"
 static const char* OFILES[] = { "helpers/util_x.cpp", "other_y.cpp", "src/prod_z.c" };
 static const char* NSUFFIX[] = { "", "_io", "_net", "x1", "x2" };
 
-struct GenState { int next_id = 0; int next_outside_line = 5; int density = 20; bool thorough = false; int reps = 1; };
+struct GenState { int next_id = 0; int next_outside_line = 5; int density = 20; bool thorough = false; int reps = 1; bool no_throw = false; };
+struct GenOpts {            // wishes of the section (defaults: none)
+    int max_tests = -1;     // cap on the size of the random part / the block
+    int e_wish = -1;        // 0: a program without throw statements and without -e / -ci, 1: a program with -e and at least one test that lets an exception escape
+    int nested = -1;        // number of enclosing outer tests, -1: drawn
+};
+static int max_outer_levels() { return std::max(0, std::min(MAX_OUTER, CppUTestVerif_JumpBufferCapacity() / 2 - 1)); }   // never deeper than the stack allows
+static void gen_nesting(vf::Rng& r, Program& p, int wish) {
+    int mx = max_outer_levels();
+    if (wish >= 0) p.nested = std::min(wish, mx);
+    else if (p.mode != 2 && mx > 0 && r.chance(25)) { int x = (int) r.below(100); p.nested = x < 40 ? 1 : x < 70 ? mx : r.range(1, mx); }
+    for (int lv = 0; lv < p.nested; lv++) { int x = (int) r.below(100); p.outer_fail[lv] = x < 60 ? 0 : x < 80 ? 1 : 2; }
+}
 
 static unsigned gen_mask(vf::Rng& r, GenState& g) {
     if (g.reps > 1 && r.chance(25)) { unsigned mk = (unsigned) r.below(1u << g.reps); return mk; }   // may be 0: never fails
@@ -1115,6 +1265,7 @@ static Stmt gen_stmt(vf::Rng& r, GenState& g, const TestSpec& t, int seq, int fo
             k = y < 46 ? K_FAILCPP : y < 92 ? K_FAILC : K_EXIT;
 #else
             k = y < 30 ? K_FAILCPP : y < 60 ? K_FAILC : y < 77 ? K_THROWSTD : y < 92 ? K_THROWINT : K_EXIT;
+            if (g.no_throw && (k == K_THROWSTD || k == K_THROWINT)) k = y < 68 ? K_FAILCPP : y < 77 ? K_FAILC : y < 84 ? K_FAILCPP : K_FAILC;
 #endif
         } else { int y = (int) r.below(100); k = y < 45 ? K_MARK : y < 85 ? K_PASS : K_PRINT; }
     }
@@ -1157,7 +1308,8 @@ static TestSpec gen_test(vf::Rng& r, GenState& g, int i, int forced_kind = -1, i
     return t;
 }
 
-static int random_terminating_kind(vf::Rng& r, bool with_exit) {
+static int random_terminating_kind(vf::Rng& r, bool with_exit, bool no_throw = false) {
+    if (no_throw) { int n = with_exit ? 3 : 2; int y = (int) r.below((uint64_t) n); return y == 0 ? K_FAILCPP : y == 1 ? K_FAILC : K_EXIT; }
 #ifdef VF_NOEXC
     int n = with_exit ? 3 : 2; int y = (int) r.below((uint64_t) n);
     return y == 0 ? K_FAILCPP : y == 1 ? K_FAILC : K_EXIT;
@@ -1167,7 +1319,7 @@ static int random_terminating_kind(vf::Rng& r, bool with_exit) {
 #endif
 }
 
-static void finish_program(vf::Rng& r, Program& p, GenState& g, int forced_crash = -1) {
+static void finish_program(vf::Rng& r, Program& p, GenState& g, int forced_crash = -1, int e_wish = -1) {
     p.nstmts = g.next_id;
     p.bystander = r.chance(40) ? 1 + (int) r.below(3) : 0;
     // terminator configuration: default, or crash-on-fail with a crash method that returns (by API call, or by -f where there is a command line)
@@ -1176,6 +1328,8 @@ static void finish_program(vf::Rng& r, Program& p, GenState& g, int forced_crash
     bool has_throw = false;
     for (const TestSpec& t : p.tests) for (int ph = 0; ph < 3; ph++) for (const Stmt& s : t.ph[ph]) if ((s.kind == K_THROWSTD || s.kind == K_THROWINT) && s.mask) has_throw = true;
     p.flag_e = has_throw || r.chance(40);
+    if (e_wish == 0 && !has_throw) p.flag_e = false;
+    if (e_wish == 1) p.flag_e = true;
     if (p.mode == 0) { p.string_buffer_output = p.tests.size() <= 40 && r.chance(50); return; }
     std::vector<std::string>& a = p.argv;
     a.push_back("c01_program");
@@ -1199,31 +1353,32 @@ static void finish_program(vf::Rng& r, Program& p, GenState& g, int forced_crash
     if (bare_r) a.push_back("-r");                                                   // last, so that it cannot swallow a numeric-looking neighbour
 }
 
-static Program gen_program(vf::Rng& r, int mode, bool thorough) {
+static Program gen_program(vf::Rng& r, int mode, bool thorough, const GenOpts& go = GenOpts()) {
     Program p; p.mode = mode;
-    GenState g; g.thorough = thorough;
+    GenState g; g.thorough = thorough; g.no_throw = go.e_wish == 0;
     { int x = (int) r.below(100); p.reps = x < 40 ? 1 : x < 70 ? 2 : x < 85 ? 3 : 4; }
     g.reps = p.reps;
     { int x = (int) r.below(100); g.density = x < 12 ? 0 : x < 35 ? 4 : x < 75 ? 15 : 40; }
     { int x = (int) r.below(100); p.verbose = x < 60 ? 0 : x < 85 ? 1 : 2; }
     p.color = r.chance(15); p.reverse = r.chance(20); p.run_ignored = r.chance(15); p.vsformat = r.chance(10);
-    p.nested = mode != 2 && r.chance(25);
+    gen_nesting(r, p, go.nested);
     int shape = (int) r.below(100);
     int maxrand = mode == 2 ? 30 : 40;
     int block = thorough ? r.range(25, 40) : r.range(12, 16);
     if (mode == 2) block = r.range(12, 15);
+    if (go.max_tests >= 0) { maxrand = std::min(maxrand, go.max_tests); block = r.range(12, 13); }
     if (shape < 40) {
         p.shape = "random";
-        int n = thorough && mode != 2 && r.chance(6) ? r.range(41, 300) : r.range(0, maxrand);
+        int n = thorough && mode != 2 && go.max_tests < 0 && r.chance(6) ? r.range(41, 300) : r.range(0, maxrand);
         for (int i = 0; i < n; i++) p.tests.push_back(gen_test(r, g, i));
     } else if (shape < 85) {
         bool one_kind = shape < 62;
         p.shape = one_kind ? "long_run_one_kind" : "long_run_mixed";
         int before = r.range(0, 8), after = r.range(0, 8), i = 0;
-        int kind = random_terminating_kind(r, r.chance(15)), phase = (int) r.below(4);
+        int kind = random_terminating_kind(r, r.chance(15), g.no_throw), phase = (int) r.below(4);
         for (int k = 0; k < before; k++, i++) p.tests.push_back(gen_test(r, g, i));
         for (int k = 0; k < block; k++, i++) {
-            if (!one_kind) { kind = random_terminating_kind(r, r.chance(10)); phase = (int) r.below(4); }
+            if (!one_kind) { kind = random_terminating_kind(r, r.chance(10), g.no_throw); phase = (int) r.below(4); }
             p.tests.push_back(gen_test(r, g, i, kind, phase, true));
         }
         for (int k = 0; k < after; k++, i++) p.tests.push_back(gen_test(r, g, i));
@@ -1259,7 +1414,15 @@ static Program gen_program(vf::Rng& r, int mode, bool thorough) {
         }
         p.shape += "_repmask";
     }
-    finish_program(r, p, g);
+#ifndef VF_NOEXC
+    if (go.e_wish == 1) {      // at least one test that really lets an exception escape from a phase, in every repetition
+        int at = (int) p.tests.size();
+        TestSpec t = gen_test(r, g, at, r.chance(50) ? K_THROWSTD : K_THROWINT, (int) r.below(3), true);
+        for (int ph = 0; ph < 3; ph++) for (Stmt& s : t.ph[ph]) if (s.kind == K_THROWSTD || s.kind == K_THROWINT) s.mask = 0xF;
+        if (p.gf == F_NONE && p.nf == F_NONE) p.tests.insert(p.tests.begin() + (long) r.below(p.tests.size() + 1), t); else p.tests.push_back(t);
+    }
+#endif
+    finish_program(r, p, g, -1, go.e_wish);
     return p;
 }
 
@@ -1290,14 +1453,15 @@ static std::string describe(const Program& p) {
     std::vector<std::string> av; for (const std::string& a : p.argv) av.push_back(vf::jstr(a));
     return vf::J().k("mode", mode_name(p.mode)).k("build", VF_VARIANT).k("shape", p.shape).k("bystander_plugin", p.bystander).k("crash_on_fail", p.crash == 0 ? "off" : p.crash == 1 ? "setCrashOnFail(), crash method returns" : "-f, crash method returns").k("tests", (unsigned long) p.tests.size()).k("repetitions", p.reps)
         .k("group_filter", std::string(FNAME[p.gf]) + ":" + p.gfs).k("name_filter", std::string(FNAME[p.nf]) + ":" + p.nfs)
-        .k("verbose", p.verbose).k("color", p.color).k("reverse", p.reverse).k("run_ignored", p.run_ignored).k("visual_studio_format", p.vsformat).k("nested_in_outer_test", p.nested)
+        .k("verbose", p.verbose).k("color", p.color).k("reverse", p.reverse).k("run_ignored", p.run_ignored).k("visual_studio_format", p.vsformat).k("enclosing_outer_tests", p.nested).k("outer_tests_fail_after_nested_run", std::to_string(p.outer_fail[0]) + std::to_string(p.outer_fail[1]) + std::to_string(p.outer_fail[2]) + std::to_string(p.outer_fail[3]))
+        .k("invocation_in_history", std::to_string(p.hist_len ? p.hist_pos + 1 : 0) + "/" + std::to_string(p.hist_len))
         .k("string_buffer_output", p.string_buffer_output).raw("argv", vf::jarr(av)).raw("program", vf::jarr(ts)).str();
 }
 
 // ================================================================= sections
-static void run_and_judge(vf::Ctx& c, std::shared_ptr<Program> pp) {
+static void run_and_judge(vf::Ctx& c, std::shared_ptr<Program> pp, bool begin = true) {
     const Program& p = *pp;
-    c.begin([pp] { return describe(*pp); });
+    if (begin) c.begin([pp] { return describe(*pp); });
     Model m = interpret(p);
     obs_reset();
     if (p.mode != 2) {
@@ -1344,9 +1508,11 @@ static void sec_triples(vf::Ctx& c) {
     uint64_t i = c.idx;
     int ks[3]; ks[0] = TRI_K[i % TRI_N]; i /= TRI_N; ks[1] = TRI_K[i % TRI_N]; i /= TRI_N; ks[2] = TRI_K[i % TRI_N]; i /= TRI_N;
     int mode = (int) (i % 2); i /= 2;
-    int crash = (int) (i % 3);       // 0 default terminators, 1 setCrashOnFail(), 2 -f (registry mode: 1 and 2 are both the API call, there is no command line)
+    int crash = (int) (i % 3); i /= 3;   // 0 default terminators, 1 setCrashOnFail(), 2 -f (registry mode: 1 and 2 are both the API call, there is no command line)
+    int deep = (int) (i % 2);            // 0: the tests run at nesting level 1, 1: at the deepest level the jump-buffer stack allows (inside capacity/2 - 1 outer tests)
     auto pp = std::make_shared<Program>();
     Program& p = *pp; p.mode = mode; p.reps = 2; p.shape = crash ? "outcome_triple_crash_on_fail" : "outcome_triple";
+    if (deep) { p.nested = max_outer_levels(); p.shape += "_deepest_nesting"; for (int lv = 0; lv < p.nested; lv++) p.outer_fail[lv] = (int) ((c.idx / 7 + (uint64_t) lv) % 3); }
     GenState g; g.reps = 2;
     for (int t = 0; t < 13; t++) {
         TestSpec ts; ts.group = "Tri"; ts.name = "t" + std::to_string(t); ts.file = "tests_a.cpp"; ts.line = 1000 + 100 * t;
@@ -1432,16 +1598,109 @@ static void sec_catalogue(vf::Ctx& c) {
     run_and_judge(c, pp);
 }
 
+// ---- histories of runner invocations in one process. A test main may call the command-line runner more than once (a smoke subset first,
+// then everything; a wrapper that retries with other options): every invocation has to behave as its OWN argv says, whatever an earlier
+// invocation was asked to do. Each invocation has its own registry and program and is judged by the unchanged per-program model; the
+// process-wide configuration (rethrow flag, terminators, crash method) is NOT reset between the invocations of one history.
+static void run_history(vf::Ctx& c, std::vector<std::shared_ptr<Program>> steps) {
+    bool without_e = false, with_e = false, with_f = false;
+    for (size_t k = 0; k < steps.size(); k++) {
+        Program& p = *steps[k];
+        p.hist_pos = (int) k; p.hist_len = (int) steps.size();
+        p.hist_prev_without_e = without_e; p.hist_prev_with_e = with_e; p.hist_prev_with_f = with_f;
+        (p.flag_e ? with_e : without_e) = true;
+        if (p.crash == 2) with_f = true;
+    }
+    c.begin([steps] { std::vector<std::string> d; for (auto& s : steps) d.push_back(describe(*s)); return vf::J().raw("history_of_runner_invocations", vf::jarr(d)).str(); });
+    for (auto& s : steps) run_and_judge(c, s, false);
+    reset_static_configuration();       // (run_program_here did it after the last invocation; again in case the history ended early)
+    c.count("histories");
+    c.count("histories_of_" + std::to_string(steps.size()) + "_invocations");
+}
+static void sec_histories(vf::Ctx& c) {
+    vf::Rng& r = c.rng;
+    int n = r.chance(65) ? 2 : 3;
+    // shapes: free (every invocation draws its options on its own), or "subset first": the earlier invocations neither throw nor pass -e,
+    // the last one passes -e and lets exceptions escape from tests (no-exceptions build: the same without the throw statements)
+    bool subset_first = r.chance(50);
+    std::vector<std::shared_ptr<Program>> steps;
+    for (int k = 0; k < n; k++) {
+        GenOpts go; go.max_tests = 12;
+        if (subset_first) go.e_wish = k + 1 < n ? 0 : 1;
+        else { int x = (int) r.below(100); go.e_wish = x < 30 ? 0 : x < 55 ? 1 : -1; }
+        steps.push_back(std::make_shared<Program>(gen_program(r, 1, false, go)));
+        steps.back()->shape += "_in_history";
+    }
+    run_history(c, steps);
+}
+
+// complete table: option set of the first invocation x option set of the second invocation x what ends a phase of the second program's
+// middle test (and of the first program's, if its options allow it) x phase. Three tests per program.
+static const char* const HOPT[] = { "", "-e", "-ci", "-f", "-v", "-c", "-r2", "-ri", "-vv" };
+static const int HOPT_N = (int) (sizeof HOPT / sizeof HOPT[0]);
+#ifdef VF_NOEXC
+static const int HK[] = { K_FAILCPP, K_FAILC };
+#else
+static const int HK[] = { K_FAILCPP, K_FAILC, K_THROWSTD, K_THROWINT };
+#endif
+static const int HK_N = (int) (sizeof HK / sizeof HK[0]);
+static std::shared_ptr<Program> option_program(vf::Ctx& c, const char* opt, int kind, int ph, int salt) {
+    auto pp = std::make_shared<Program>();
+    Program& p = *pp; p.mode = 1; p.shape = "option_history";
+    std::string o = opt;
+    bool throws = kind == K_THROWSTD || kind == K_THROWINT;
+    p.reps = o == "-r2" ? 2 : 1; p.verbose = o == "-v" ? 1 : o == "-vv" ? 2 : 0; p.color = o == "-c"; p.run_ignored = o == "-ri"; p.crash = o == "-f" ? 2 : 0;
+    p.flag_e = o == "-e" || o == "-ci" || throws;
+    GenState g; g.reps = p.reps;
+    for (int t = 0; t < 3; t++) {
+        TestSpec ts; ts.group = "Hist"; ts.name = "t" + std::to_string(t); ts.file = "tests_hist.cpp"; ts.line = 1000 + 100 * t; ts.ignored = t == 2 && o == "-ri";
+        int seq = 0;
+        for (int q = 0; q < 3; q++) {
+            Stmt a; a.id = g.next_id++; a.kind = K_PASS; a.variant = (salt + q + t) % N_PASS; a.file = ts.file; a.line = ts.line + 1 + seq++; a.text = "m"; ts.ph[q].push_back(a);
+            if (t == 1 && q == ph && kind >= 0) {
+                Stmt s; s.id = g.next_id++; s.kind = kind; s.variant = (salt + ph) % (kind == K_FAILCPP ? N_CPP : kind == K_FAILC ? N_C : 4);
+                s.file = ts.file; s.line = ts.line + 1 + seq++; s.text = "tok" + std::to_string(s.id) + "q"; ts.ph[q].push_back(s);
+            }
+            Stmt b; b.id = g.next_id++; b.kind = K_MARK; b.file = ts.file; b.line = ts.line + 1 + seq++; b.text = "m"; ts.ph[q].push_back(b);
+        }
+        p.tests.push_back(ts);
+    }
+    p.nstmts = g.next_id;
+    p.argv.push_back("c01_program");
+    if (!o.empty()) p.argv.push_back(o);
+    if (throws && o != "-e" && o != "-ci") p.argv.push_back((salt & 1) ? "-e" : "-ci");     // a program that throws always asks for "do not rethrow"
+    (void) c;
+    return pp;
+}
+static void sec_option_histories(vf::Ctx& c) {
+    uint64_t i = c.idx;
+    int o1 = (int) (i % HOPT_N); i /= HOPT_N;
+    int o2 = (int) (i % HOPT_N); i /= HOPT_N;
+    int k2 = HK[i % HK_N]; i /= HK_N;
+    int ph = (int) (i % 3);
+    // first invocation: a failing check of the other style in the same phase (it never throws unless it is the -e / -ci invocation itself)
+    int k1 = (std::string(HOPT[o1]) == "-e" || std::string(HOPT[o1]) == "-ci") ? k2 : (k2 == K_FAILC ? K_FAILCPP : K_FAILC);
+    if ((c.idx / 5) % 3 == 0) k1 = -1;      // ... or no failure at all (a passing smoke run first)
+    std::vector<std::shared_ptr<Program>> steps;
+    steps.push_back(option_program(c, HOPT[o1], k1, ph, (int) (c.idx % 11)));
+    steps.push_back(option_program(c, HOPT[o2], k2, ph, (int) (c.idx % 13) + 1));
+    if ((c.idx / 3) % 4 == 0) steps.push_back(option_program(c, HOPT[o1], k1, (ph + 1) % 3, (int) (c.idx % 7) + 2));   // and the first option set once more
+    c.count("option_histories_enumerated");
+    run_history(c, steps);
+}
+
 int main(int argc, char** argv) {
     g_obs = (Obs*) mmap(nullptr, sizeof(Obs), PROT_READ | PROT_WRITE, MAP_SHARED | MAP_ANONYMOUS, -1, 0);
     if (g_obs == MAP_FAILED) { perror("mmap"); return 2; }
     static TestSpec peek_spec; peek_spec.group = "Peek"; peek_spec.name = "peek"; peek_spec.file = "peek.cpp"; peek_spec.line = 1;
     g_peek = new ScriptShell(-1, peek_spec);
-    uint64_t ntri = (uint64_t) TRI_N * TRI_N * TRI_N * 2 * 3;
+    uint64_t ntri = (uint64_t) TRI_N * TRI_N * TRI_N * 2 * 3 * 2;
     std::vector<vf::Section> S = {
         { "outcome_triples", ntri, ntri, sec_triples, true },
         { "failure_totals_around_256", (uint64_t) TOT_N * 4, (uint64_t) TOT_N * 4, sec_totals, true },
         { "check_catalogue", (uint64_t) CAT_N * 6, (uint64_t) CAT_N * 6, sec_catalogue, true },
+        { "option_histories", (uint64_t) HOPT_N * HOPT_N * HK_N * 3, (uint64_t) HOPT_N * HOPT_N * HK_N * 3, sec_option_histories, true },
+        { "runner_histories", 500, 6000, sec_histories, false },
         { "registry_programs", 3000, 40000, sec_registry, false },
         { "runner_programs", 2000, 25000, sec_runner, false },
         { "process_programs", 200, 1200, sec_process, false },
